@@ -899,7 +899,9 @@ SEQUENCE_encode_xer(const asn_TYPE_descriptor_t *td, const void *sptr,
                 assert(tmp_def_val == 0);
                 if(elm->default_value_set) {
                     if(elm->default_value_set(&tmp_def_val)) {
-                        ASN__ENCODE_FAILED;
+                        /* The setter may have got half way */
+                        tmp_def_val_td = elm->type;
+                        goto cb_failed;
                     } else {
                         memb_ptr = tmp_def_val;
                         tmp_def_val_td = elm->type;
